@@ -39,8 +39,9 @@ ASSUMPTIONS = [
     "names are ASCII identifiers [A-Za-z_][A-Za-z0-9_]* (what a Python attribute / variable / name= argument naturally is)",
     "reserved words: IEEE 1076-1993 list; a word reserved only since 1076-2008 used as identifier is legal for a 1993 "
     "tool (union-of-editions policy) and only counted (label only_2008_reserved)",
-    "user-reserved names (additional_reserved_names / reserved_names) only vary the uniquifier's input: their effect is "
-    "not specified by the property and is only counted",
+    "user-reserved names (additional_reserved_names / reserved_names) are read as reserved words of the design: an object "
+    "the backend names itself (signal, variable, label, type) must not carry one, compared case-insensitively like every "
+    "VHDL identifier; interface names and enumerators are not judged against them",
 ]
 
 LEXICAL = ("S-parse", "S-ident")
@@ -501,10 +502,23 @@ def check(case):
         out.counters["only_2008_reserved_identifiers"] = n2008
     if gen == "A" and case.get("opt"):
         # user-reserved names: unspecified by the property; only count whether one is declared verbatim
-        decl = {m.group(1).lower() for m in re.finditer(rf"^\s*(?:signal|variable)\s+({_ID})\s*:", vhdl, re.M)}
-        names = {x.lower() for x in case["opt"].get("add", []) + case["opt"].get("attr", [])}
-        if decl & names:
-            out.counters["user_reserved_name_declared"] = 1
+        # a user-reserved name must not be given to an object the backend names itself (signals, variables, labels,
+        # types); VHDL identifiers are case-insensitive, so the comparison is too.  Interface names and enumerators
+        # are printed as declared and cannot be renamed: not judged here.
+        managed = ("signal-decl", "variable-decl", "process-label", "instance-label", "enum-type-name", "array-type-name")
+        dd_all = declarations(vhdl.split("\n"))
+        # attributes={"reserved_names": ...} belongs to the top entity only (the last design unit pair of the file)
+        dd_top = declarations(vhdl[max(0, vhdl.rfind("\nentity ")):].split("\n"))
+        for via in ("add", "attr"):
+            dd = dd_all if via == "add" else dd_top
+            for nm in case["opt"].get(via, []):
+                cls = dd.get(nm.lower())
+                hit = [c for c in (cls or "").split("+") if c in managed]
+                if hit:
+                    out.counters["user_reserved_name_declared"] = out.counters.get("user_reserved_name_declared", 0) + 1
+                    out.add({"rule": "user-reserved-declared", "spelling": "lower" if nm == nm.lower() else "mixed", "via": via},
+                            f"{via}: user-reserved name {nm!r} is declared in the emitted text as {hit[0]}\n"
+                            + "\n".join(l for l in vhdl.split("\n") if re.search(rf"\b{re.escape(nm)}\b", l, re.I))[:600])
     if d.errors:
         lines = vhdl.split("\n")
         res93 = frozenset(RESERVED_93)
